@@ -17,6 +17,8 @@ def gen_case(ctx, rng, i, tag='random'):
     from harness.check import draw_env
     pol, knobs = draw_env(rng, tcp=True)
     ops = []
+    if rng.random() < 0.15:
+        ops.append(['delete', rng.choice(IDS), 'raw'])      # the first context request of the server's life
     if rng.random() < 0.25:
         # directed prefix: an id is deleted and registered again (new generation) before something touches the old handle
         cid = rng.choice(IDS)
@@ -32,7 +34,7 @@ def gen_case(ctx, rng, i, tag='random'):
         if r < 0.3:
             ops.append(['create', cid])
         elif r < 0.42:
-            ops.append(['delete', cid])
+            ops.append(['delete', cid, rng.choice(['handle', 'raw'])])
         elif r < 0.5:
             # clean-up code calling close() / wait() / terminate() once more on the handle of an already deleted context
             ops.append(['stale', cid, rng.choice(['close', 'wait', 'terminate'])])
@@ -115,6 +117,27 @@ class Run:
                         if not (r[0] == 'ok' and r[1] is True):
                             self.viol('delete-ends-workers', f'parent-side-worker-not-dead-after-delete:{r[0]}')
                         pws.remove(p)
+                elif len(op) > 2 and op[2] == 'raw':
+                    # delete of an id the server does not know, sent as a bare protocol request (what a client holding a handle from
+                    # before a server restart sends) - possibly the very first context request this server ever sees
+                    from pyworkers.remote import send_msg, recv_msg
+                    from simos.sockshim import SocketFacade
+                    S = SocketFacade()
+
+                    def raw_delete():
+                        sk = S.socket(S.AF_INET, S.SOCK_STREAM)
+                        sk.connect(addr)
+                        try:
+                            send_msg(sk, (cid, False))
+                            send_msg(sk, None)
+                            return recv_msg(sk)
+                        finally:
+                            sk.close()
+                    r = lib.call_with_deadline(raw_delete, 300.0)
+                    if r[0] != 'ok' or r[1] is not True:
+                        self.viol('delete', f'delete-unknown-raw-{r[0]}:{lib.safe_repr(r[1]) if r[0] == "ok" else type(r[1]).__name__}')
+                        if r[0] == 'hung':
+                            return
                 else:
                     # delete of an id the server does not know (forged through a stale handle)
                     tmp_id = 40 + cid
